@@ -39,6 +39,21 @@ func load(repo string) {
 			}
 			return nil
 		}
+		if strings.HasSuffix(p, ".go") && !strings.HasSuffix(p, "_test.go") {
+			// The harness is built with -tags verif.  Library code that is compiled only WITHOUT that tag
+			// (or hook code that is compiled without it) would never be executed by any check while being
+			// what every user runs: refuse such a tree outright.
+			mentions, tagged := buildConstraint(p)
+			hook := strings.HasPrefix(info.Name(), "verif_")
+			if mentions && !hook {
+				fmt.Fprintf(os.Stderr, "factgen: %s has a build constraint that mentions the verification tag `verif`; only verif_*.go hook files may\n", p)
+				os.Exit(1)
+			}
+			if hook && !tagged {
+				fmt.Fprintf(os.Stderr, "factgen: hook file %s is not guarded by `//go:build verif`\n", p)
+				os.Exit(1)
+			}
+		}
 		if !strings.HasSuffix(p, ".go") || strings.HasSuffix(p, "_test.go") || strings.HasSuffix(p, ".pb.go") ||
 			strings.HasPrefix(info.Name(), "verif_") {
 			return nil
@@ -57,6 +72,31 @@ func load(repo string) {
 		pk.files[info.Name()] = f
 		return nil
 	})
+}
+
+// buildConstraint reports whether the file's header (everything before the package clause) has a
+// //go:build or // +build line that mentions the word verif, and whether it is exactly guarded by it.
+func buildConstraint(path string) (mentions, guarded bool) {
+	data, err := os.ReadFile(path)
+	if err != nil {
+		return false, false
+	}
+	for _, line := range strings.Split(string(data), "\n") {
+		t := strings.TrimSpace(line)
+		if strings.HasPrefix(t, "package ") {
+			break
+		}
+		if strings.HasPrefix(t, "//go:build") || strings.HasPrefix(t, "// +build") {
+			if strings.Contains(t, "verif") {
+				mentions = true
+				rest := strings.TrimSpace(strings.TrimPrefix(strings.TrimPrefix(t, "//go:build"), "// +build"))
+				if rest == "verif" {
+					guarded = true
+				}
+			}
+		}
+	}
+	return
 }
 
 func recvName(fd *ast.FuncDecl) string {
